@@ -25,7 +25,7 @@ func init() {
 		Doc: "XX and KK handshakes at every version over a stream whose every Read returns at most g bytes, for every fixed g in 1..40 and a random granularity; outcome and derived keys must equal those of the unfragmented run with the same keys",
 	})
 	simrt.Register(&simrt.Scenario{
-		Prop: "C16", Name: "fragmented-records", Count: tiered(3000, 40000),
+		Prop: "C16", Name: "fragmented-records", Count: tiered(3000, 320000),
 		Run: c16FragRecords, MaxOps: 4 << 20, Horizon: time.Hour,
 		Doc: "record exchange through NoiseGrpcConn / NoiseConn / Machine over readers returning 1..k bytes per Read (fixed and random granularity), payloads 0..65535",
 	})
